@@ -225,7 +225,13 @@ NAN_PATTERNS = ["none", "coord", "point", "first", "all"]
 SPECIAL = [-0.0, 1e-300, 7e17, 1.0 / 3.0, 0.1, 1e-05, 123456789.12345679, 5e-324, -2.5, 2.0, 1e22, 0.30000000000000004, -1e-7, 255.0, 3.0000000000000004]
 
 
-def _payload(payload, d, seed, salt):
+def _payload(payload, d, seed, salt, n=None):
+    """N rows of seeded coordinates; the first n of them for the size-boundary letters (n = 0, 1, 2, 3)."""
+    p = _payload_full(payload, d, seed, salt)
+    return p if n is None else np.ascontiguousarray(p[: int(n)])
+
+
+def _payload_full(payload, d, seed, salt):
     if payload == "generic":
         p = 0.5 + 5.0 * L.rs(seed, "c16", salt, d).rand(N, d)
     elif payload == "special":
@@ -245,10 +251,13 @@ def _payload(payload, d, seed, salt):
 
 def _apply_nan(p, nan):
     p = p.copy()
+    if p.shape[0] == 0:
+        return p
+    last = p.shape[0] - 1
     if nan == "coord":
-        p[1, 0] = np.nan
+        p[min(1, last), 0] = np.nan
     elif nan == "point":
-        p[3, :] = np.nan
+        p[min(3, last), :] = np.nan
     elif nan == "first":
         p[0, -1] = np.nan
     elif nan == "all":
@@ -269,6 +278,7 @@ def make_shape(letter, pts):
         edge_list = [e for e in EDGE_FAMS.get(ef, []) if max(e) < n]
     earr = np.array(edge_list, dtype=int).reshape(-1, 2)
     labels = [(k, tuple(i for i in v if i < n)) for k, v in LABEL_FAMS.get(lf, [])]
+    labels = [(k, v) for k, v in labels if v]  # (size-boundary letters: a label needs a member)
     if cls == "PointCloud":
         obj = ms.PointCloud(pts)
     elif cls == "PointUndirectedGraph":
@@ -278,13 +288,26 @@ def make_shape(letter, pts):
     elif cls == "PointTree":
         obj = ms.PointTree.init_from_edges(pts, earr, 0)
     elif cls == "TriMesh":
-        obj = ms.TriMesh(pts, np.array(tl, dtype=int))
+        obj = ms.TriMesh(pts, np.array(tl, dtype=int).reshape(-1, 3))
     elif cls == "LabelledPointUndirectedGraph":
         obj = ms.LabelledPointUndirectedGraph.init_from_indices_mapping(pts, earr, OrderedDict((k, list(v)) for k, v in labels))
     else:
         raise ValueError(cls)
     ref = {"points": np.array(pts, dtype=float), "edges": set(frozenset(e) for e in edge_list), "labels": labels}
     return obj, ref
+
+
+SMALL_N = (1, 2, 3)  # one point, one possible edge, one possible triangle
+
+
+def small_ok(letter, n, fmt):
+    """size-boundary letters that the constructors / formats accept at all."""
+    cls = letter[0]
+    if n == 0:  # graphs need a vertex; the LJSON importer indexes the first point (see assumptions)
+        return fmt in ("pts", "pkl") and cls in ("PointCloud", "TriMesh")
+    if cls == "PointTree":
+        return n >= 2  # a tree cannot have isolated vertices
+    return True
 
 
 def _bits_equal(a, b):
@@ -430,7 +453,30 @@ FILE_LETTERS_QUICK = [
 FILE_LETTERS_MORE = [("bmp", "P"), ("bmp", "1"), ("pbm", "1"), ("dib", "L"), ("dib", "RGB"), ("pcx", "L"), ("pcx", "RGB"), ("tiff", "L")]
 
 
-def u8_arrays(seed):
+SIZES_QUICK = [(1, 1), (1, 1, "min"), (1, 1, "max"), (1, 32), (8, 1), (1, 9), (3, 5)]
+SIZES_MORE = [(1, 7), (1, 8), (2, 3), (1, 2), (2, 1), (1, 4), (1, 5)]  # byte / 4-byte row boundaries of 1-bit and bmp rows
+
+
+def u8_arrays(seed, size=None):
+    """the all-256-values letters, or their top-left (h, w) corner for a size letter (optionally all 0 / all 255)."""
+    a = _u8_full(seed)
+    if size is None:
+        return a
+    h, w = int(size[0]), int(size[1])
+    fill = size[2] if len(size) > 2 else None
+    out = {}
+    for k, v in a.items():
+        if k == "palette":
+            out[k] = v
+            continue
+        v = np.ascontiguousarray(v[:h, :w]).copy()
+        if fill is not None:
+            v[...] = (False if fill == "min" else True) if v.dtype == bool else (0 if fill == "min" else 255)
+        out[k] = v
+    return out
+
+
+def _u8_full(seed):
     r = L.rs(seed, "c16", "u8")
     l8 = r.permutation(256).astype(np.uint8).reshape(IMG_H, IMG_W)
     rgb = np.stack([r.permutation(256).astype(np.uint8).reshape(IMG_H, IMG_W) for _ in range(3)], axis=-1)
@@ -484,12 +530,17 @@ def chan_first(e):
     return e[None, ...] if e.ndim == 2 else np.ascontiguousarray(np.moveaxis(e, -1, 0))
 
 
+EDGE_VALUES = [0.0, 1.0, 0.5 / 255, 254.5 / 255, 127.5 / 255, 128.5 / 255, 1.0 / 255, 254.0 / 255, float(np.nextafter(1.0, 0.0)), 5e-324,
+               float(np.nextafter(0.5 / 255, 0.0)), float(np.nextafter(0.5 / 255, 1.0)), 1.5 / 255, 2.5 / 255, 0.5]
+
+
 def mem_image(letter, seed):
     """(image, expected 8-bit data or None, float reference (c,h,w) or None)."""
     from menpo.image import BooleanImage, Image, MaskedImage
 
-    cls, ch, kind = letter
-    arrs = u8_arrays(seed)
+    cls, ch, kind = letter[:3]
+    size = letter[3] if len(letter) > 3 else None
+    arrs = u8_arrays(seed, size)
     e8 = arrs["L"] if ch == 1 else arrs["RGB"]
     if kind == "u8":
         px, exp, fref = chan_first(e8).copy(), e8, None
@@ -504,6 +555,12 @@ def mem_image(letter, seed):
         px = np.stack([np.roll(g.reshape(-1), 341 * c).reshape(25, 41) for c in range(ch)])
         px = px.astype(np.float64 if kind == "grid64" else np.float32)
         exp, fref = None, px.astype(np.float64)
+    elif kind in ("edge64", "edge32"):  # values at the ends of the range and exactly between two levels
+        h, w = e8.shape[:2]
+        px = np.array([EDGE_VALUES[(i + 5 * c) % len(EDGE_VALUES)] for c in range(ch) for i in range(h * w)], dtype=np.float64).reshape(ch, h, w)
+        px = px.astype(np.float64 if kind == "edge64" else np.float32)
+        px = np.clip(px, 0.0, 1.0)
+        exp, fref = None, px.astype(np.float64)
     elif kind == "bool":
         b = arrs["bits"]
         return BooleanImage(b.copy()), b.astype(np.uint8) * 255, None
@@ -514,7 +571,8 @@ def mem_image(letter, seed):
     if cls == "MaskedImage":
         m = L.rs(seed, "c16", "mask").rand(*px.shape[1:]) > 0.5
         m.flat[0] = True
-        m.flat[1] = False
+        if m.size > 1:
+            m.flat[1] = False
         return MaskedImage(px, mask=m), exp, fref
     raise ValueError(cls)
 
@@ -569,9 +627,12 @@ def proc_mode(a, b, i):
     return ("L", "RGB")[i % 2]
 
 
+MEM_SIZED = [("Image", 1, "u8"), ("Image", 3, "levels64"), ("Image", 1, "edge64"), ("MaskedImage", 3, "levels64m"), ("BooleanImage", 1, "bool"), ("Image", 3, "u8"), ("Image", 1, "levels32")]
+FILE_SIZED = [("png", "L"), ("png", "RGB"), ("bmp", "RGB"), ("tif", "L"), ("pgm", "L"), ("ppm", "RGB"), ("png", "1"), ("png", "RGBA"), ("bmp", "L"), ("png", "P"), ("tif", "RGB"), ("bmp", "1")]
 MEM_LETTERS = [
     ("Image", 1, "u8"), ("Image", 3, "u8"), ("Image", 1, "levels64"), ("Image", 3, "levels64"), ("Image", 3, "levels64m"), ("Image", 1, "levels32"), ("Image", 3, "levels32"),
     ("Image", 1, "grid64"), ("Image", 3, "grid64"), ("Image", 1, "grid32"), ("Image", 3, "grid32"),
+    ("Image", 1, "edge64"), ("Image", 3, "edge32"),
     ("MaskedImage", 1, "levels64"), ("MaskedImage", 3, "levels64"), ("MaskedImage", 3, "u8"), ("MaskedImage", 3, "grid64"), ("BooleanImage", 1, "bool"),
 ]
 
@@ -648,6 +709,9 @@ def pkl_object(root, seed):
         return model_letter(root[2], seed)
     if kind == "container":
         return container_letter(root[2], seed)
+    if kind == "small":  # size-boundary shapes: (shape letter index, n points, n dims)
+        li, n, d = root[2]
+        return make_shape(SHAPE_LETTERS[li], _payload("generic", d, seed, ("pklsmall", li), n))[0]
     raise ValueError(root)
 
 
@@ -668,7 +732,7 @@ OW_FAMILIES = OrderedDict(
     ]
 )
 VIDEO_EXT = (".gif", ".mp4")
-OW_INITS = ["empty", "foreign-first", "foreign-all"]
+OW_INITS = ["empty", "foreign-first", "foreign-all", "zero-byte-all"]  # an existing file of size 0 is an existing file
 
 
 def ow_object(exporter, which, seed):
@@ -755,11 +819,29 @@ class C16(Check):
             for d in (2, 3):
                 k += 1
                 out.append(("lj", ("manager", "dict")[k % 2], ((k % 8, i), ((k + 1) % 8, j), ((k + 5) % 8, m)), d, NAN_PATTERNS[k % 3], "generic"))
+        # LJSON size boundaries: 1 point, 2 points (one possible edge), 3 points (one possible triangle);
+        # a manager / dict with one group of one point is among them
+        for n in SMALL_N:
+            for li in range(n_letters):
+                if not small_ok(SHAPE_LETTERS[li], n, "ljson") or (quick and n == 3 and SHAPE_LETTERS[li][0] != "TriMesh"):
+                    continue
+                for d in (2, 3):
+                    for nan in (("none", "first")[(li + d + n) % 2],) if quick else ("none", "first", "all", "coord"):
+                        k += 1
+                        out.append(("lj", "bare", ((8, li),), d, nan, ("generic", "special")[k % 2], n))
+                        out.append(("lj", ("manager", "dict")[k % 2], ((k % 8, li),), d, nan, ("special", "generic")[k % 2], n))
         # PTS
         for li in range(n_letters):
             for nan in nans:
                 for payload in ("pts", "generic", "pixel"):
                     out.append(("pts", li, nan, payload))
+        for n in (0,) + SMALL_N:
+            for li in range(n_letters):
+                if not small_ok(SHAPE_LETTERS[li], n, "pts") or (quick and n == 3 and SHAPE_LETTERS[li][0] != "TriMesh"):
+                    continue
+                for payload in ("pts", "generic"):
+                    for nan in (("none", "first")[(li + n) % 2],) if quick else ("none", "first", "all"):
+                        out.append(("pts", li, nan, payload, n))
         # pickles
         for s in L.shape_specs(dims=(2, 3), groups=(0, 2)):
             out.append(("pkl", "shape", s))
@@ -772,12 +854,30 @@ class C16(Check):
             out.append(("pkl", "model", m))
         for c in CONTAINER_LETTERS:
             out.append(("pkl", "container", c))
+        for n in (0,) + SMALL_N[:2]:
+            for li in range(n_letters):
+                if small_ok(SHAPE_LETTERS[li], n, "pkl"):
+                    out.append(("pkl", "small", (li, n, 2 + (li + n) % 2)))
+        for spec in (("Image", (1, 1), 1, "float64", "-", 0), ("Image", (1, 4), 3, "uint8", "-", 0), ("Image", (3, 1), 2, "float32", "-", 0), ("MaskedImage", (1, 1), 1, "float64", "all", 0),
+                     ("MaskedImage", (1, 3), 2, "float32", "single", 0), ("BooleanImage", (1, 1), 1, "bool", "-", 0), ("BooleanImage", (4, 1), 1, "bool", "-", 0), ("Image", (1, 1, 1), 1, "float64", "-", 0)):
+            out.append(("pkl", "image", spec))
         # images
         for fmt, mode in FILE_LETTERS_QUICK + ([] if quick else FILE_LETTERS_MORE):
             for norm in (True, False):
                 out.append(("imf", fmt, mode, norm))
         for letter in MEM_LETTERS:
             out.append(("imm",) + letter)
+        # image size boundaries: 1x1 (also all-0 / all-255), one row, one column, rows ending inside a byte / word
+        for si, size in enumerate(SIZES_QUICK + ([] if quick else SIZES_MORE)):
+            for fi, (fmt, mode) in enumerate(FILE_SIZED):
+                if quick and (fi + si) % 2:
+                    continue
+                for norm in ((bool((fi + si) // 2 % 2),) if quick else (True, False)):
+                    out.append(("imf", fmt, mode, norm, size))
+            for mi, letter in enumerate(MEM_SIZED):
+                if quick and (mi + si) % 2:
+                    continue
+                out.append(("imm",) + letter + (size,))
         i = 0
         for a in PROC_IN_QUICK + ([] if quick else PROC_IN_MORE):
             for b in PROC_OUT_QUICK + ([] if quick else PROC_OUT_MORE):
@@ -800,7 +900,7 @@ class C16(Check):
             self._build_lj(st, root)
         elif kind == "pts":
             letter = SHAPE_LETTERS[root[1]]
-            pts = _apply_nan(_payload(root[3], 2, self.seed, ("pts", root[1])), root[2])
+            pts = _apply_nan(_payload(root[3], 2, self.seed, ("pts", root[1]), root[4] if len(root) > 4 else None), root[2])
             obj, ref = make_shape(letter, pts)
             st["cur"], st["ref"] = obj, ref["points"]
         elif kind == "pkl":
@@ -825,8 +925,8 @@ class C16(Check):
                 pre = names[1:]  # the video-only name must pre-exist to be refusable
             for n in pre:
                 with open(os.path.join(d, n), "wb") as fh:
-                    fh.write(FOREIGN)
-                st["fs"][n] = "foreign"
+                    fh.write(b"" if init == "zero-byte-all" else FOREIGN)
+                st["fs"][n] = "zero-byte" if init == "zero-byte-all" else "foreign"
             st["pristine"] = {}
             st["objs"] = {}
         else:
@@ -836,11 +936,12 @@ class C16(Check):
     def _build_lj(self, st, root):
         from menpo.landmark import LandmarkManager
 
-        _, container, groups, d, nan, payload = root
+        _, container, groups, d, nan, payload = root[:6]
+        n_pts = root[6] if len(root) > 6 else None
         objs, refs = OrderedDict(), {}
         for gi, (ni, li) in enumerate(groups):
             name = GROUP_NAMES[ni]
-            pts = _apply_nan(_payload(payload, d, self.seed, ("lj", gi, li)), nan if gi != 1 else ("none" if nan == "all" else nan))
+            pts = _apply_nan(_payload(payload, d, self.seed, ("lj", gi, li), n_pts), nan if gi != 1 else ("none" if nan == "all" else nan))
             obj, ref = make_shape(SHAPE_LETTERS[li], pts)
             objs[name], refs[name] = obj, ref
         if len(objs) != len(groups):
@@ -862,8 +963,8 @@ class C16(Check):
     def _build_imf(self, st, root):
         import menpo.io as mio
 
-        _, fmt, mode, norm = root
-        arrs = u8_arrays(self.seed)
+        _, fmt, mode, norm = root[:4]
+        arrs = u8_arrays(self.seed, root[4] if len(root) > 4 else None)
         name = "src.%s.%s" % (mode, fmt)
         exp, extra = write_source(os.path.join(st["dir"], name), mode, arrs)
         st["ref"] = exp
@@ -881,7 +982,7 @@ class C16(Check):
             return []
         from menpo.image import BooleanImage, MaskedImage
 
-        _, fmt, mode, norm = root
+        _, fmt, mode, norm = root[:4]
         im, exp = st["cur"], st["ref"]
         fails = []
         where = "import_image"
@@ -975,6 +1076,8 @@ class C16(Check):
             if kind == "imf" and root[2] == "RGBA" and not root[3]:
                 return []  # four channels: not exportable, only the import clause applies
             outs = LOSSLESS_OUT[:6] if self.tier == "quick" else LOSSLESS_OUT
+            if st["cur"].pixels.shape[-1] == 1:
+                outs = [o for o in outs if o != "pcx"]  # Pillow's own pcx reader rejects its one-column RGB files
             ops = self._rt_ops(["." + o for o in outs], level)
             # the protocol slot carries the normalisation flag of the re-import
             res = []
@@ -1081,6 +1184,11 @@ class C16(Check):
             refs = st["ref"]
             self.note("lj:ok" if not fails else "lj:failed")
             self.note("lj:groups%d" % len(refs))
+            n_min = min(r["points"].shape[0] for r in refs.values())
+            if n_min < N:
+                self.note("lj:n%d" % n_min)
+                if n_min == 1 and len(refs) == 1 and st["root"][1] != "bare":
+                    self.note("lj:%s-one-group-one-point" % st["root"][1])
             for gname, r in refs.items():
                 if np.isnan(r["points"]).any():
                     self.note("lj:nan-roundtrip")
@@ -1137,11 +1245,13 @@ class C16(Check):
                         fails.append(Failure(where, "pts-precision", "shape / missing values differ from the %s points: %r vs %r" % (label, gp, refpts)))
                         break
                     with np.errstate(invalid="ignore"):
-                        err = np.nanmax(np.abs(gp - refpts)) if np.isfinite(refpts).any() else 0.0
+                        err = np.nanmax(np.abs(gp - refpts)) if refpts.size and np.isfinite(refpts).any() else 0.0
                     if not err <= tol:
                         fails.append(Failure(where, "pts-precision", "max |imported - %s| = %.6g > %.3g\n%r\nvs\n%r" % (label, err, tol, gp, refpts)))
                         break
             self.note("pts:ok" if not fails else "pts:failed")
+            if st["ref"].shape[0] < N:
+                self.note("pts:n%d" % st["ref"].shape[0])
             if np.isnan(st["ref"]).any():
                 self.note("pts:nan")
             self.note("pts:gen%d" % min(st["gen"], 1))
@@ -1186,6 +1296,10 @@ class C16(Check):
                 fails.append(Failure(where, "pickle-state", "%s file is %sgzip compressed" % (ext, "" if is_gz else "not ")))
             self.note("pkl:%s:%s" % ("ok" if not fails else "failed", ext))
             self.note("pkl:class:%s" % st["root"][1])
+            if st["root"][1] == "small":
+                self.note("pkl:small:n%d" % st["root"][2][1])
+            if st["root"][1] == "image" and tuple(st["root"][2][1])[:2] == (1, 1):
+                self.note("pkl:image-1x1")
             self.note("pkl:gen%d" % min(st["gen"], 1))
             self.note("sp:%s" % sp_)
         st["cur"] = back
@@ -1237,6 +1351,11 @@ class C16(Check):
             if not np.array_equal(np.asarray(im.pixels), px_before):
                 fails.append(Failure(where, "exported-object-changed", "export_image modified the pixels of its argument"))
             self.note("img:reimport-%s" % ("float" if norm else "uint8"))
+            hh, ww = px_before.shape[-2:]
+            if hh == 1 or ww == 1:
+                self.note("img:size:%s" % ("1x1" if hh == ww else "1xN" if hh == 1 else "Nx1"))
+                if hh == ww and exp is not None and exp.min() == exp.max() and int(exp.min()) in (0, 255):
+                    self.note("img:1x1-value-%d" % int(exp.min()))
             self.note("sp:%s" % sp_)
             self.note("img:gen%d" % min(st["gen"], 1))
         if exp is None:
@@ -1363,7 +1482,7 @@ class C16(Check):
                     fails.append(Failure(where, "file-intact", "refused export (%s, overwrite=False) changed %r: %s" % (sp_, changed, "; ".join("%s %s -> %s bytes" % (n, len(before.get(n, b"")), len(after.get(n, b""))) for n in changed))))
                 self.note("ow:refused:%s" % exporter)
                 self.note("owsp:refused:%s" % sp_)
-                self.note("ow:refused-over:%s" % ("foreign" if st["fs"][name] == "foreign" else "own"))
+                self.note("ow:refused-over:%s" % (st["fs"][name] if st["fs"][name] in ("foreign", "zero-byte") else "own"))
             # keep the model in step with the directory so that a replay of this history stays well defined
             if name in after and after[name] != before.get(name):
                 st["fs"][name] = "clobbered:" + _sha(after[name])
@@ -1422,7 +1541,9 @@ class C16(Check):
                 "pts:ok", "pts:nan", "pts:gen1", "pkl:ok:.pkl", "pkl:ok:.pkl.gz", "pkl:gen1", "pkl:class:model", "pkl:class:transform", "pkl:class:image", "pkl:class:shape", "pkl:class:container",
                 "proc:ok", "proc:preinit-import-then-late-plugin-export",
                 "img8:ok", "imgf:ok", "img:gen1", "img:reimport-float", "img:reimport-uint8", "imf-import:float", "imf-import:uint8",
-                "ow:refused-over:foreign", "ow:refused-over:own"]
+                "ow:refused-over:foreign", "ow:refused-over:own", "ow:refused-over:zero-byte",
+                "lj:n1", "lj:n2", "lj:n3", "lj:manager-one-group-one-point", "lj:dict-one-group-one-point", "pts:n0", "pts:n1", "pts:n2", "pts:n3",
+                "pkl:small:n0", "pkl:small:n1", "pkl:small:n2", "pkl:image-1x1", "img:size:1x1", "img:size:1xN", "img:size:Nx1", "img:1x1-value-0", "img:1x1-value-255"]
         for e in ("ljson", "pts", "image", "pkl", "pklgz", "gif"):
             need += ["ow:refused:%s" % e, "ow:created:%s" % e, "ow:overwritten:%s" % e]
         need.append("ow:refused:video")
@@ -1467,7 +1588,7 @@ class C16(Check):
 
     def assumptions(self):
         return [
-            "LJSON / PTS letters have 5 points (2 for the small overwrite letter); LJSON is explored in 2-D and 3-D only (the exporter writes no points for other dimensions), PTS in 2-D only (two columns)",
+            "LJSON / PTS letters have 5 points, plus the size boundaries 1, 2, 3 points (0 points for PTS and pickles of PointCloud / TriMesh; PointTree from 2 points); images are 8x32 plus 1x1 (also all 0 / all 255), one row, one column and rows ending inside a byte / word; LJSON is explored in 2-D and 3-D only (the exporter writes no points for other dimensions), PTS in 2-D only (two columns)",
             "shapes without points are not exported (the LJSON importer indexes the first point)",
             "Pillow's plugin registry is global to the interpreter: what was imported before an export is explored as a process-level history, one fresh interpreter per ordered (imported format, exported format) pair doing import_image -> export_image -> import_image (D31); inside the exploring workers the registry is whatever earlier roots left",
             "lossy or palette-quantising formats (jpg, gif for RGB) are outside the round-trip statement; gif is re-read with Pillow only (menpo reads gif through ffmpeg)",
